@@ -53,10 +53,10 @@ def closed_heap_facts(h):
     k = z3.Const('k!cl', Val)
     e = z3.Select(z3.Select(h.elem, a), j)
     d = z3.Select(z3.Select(h.dv, a), k)
-    return [z3.ForAll([a, j], z3.Implies(z3.And(a >= 0, a < h.alloc, Z.is_ref(e)),
-                                         z3.And(Z.addr(e) >= 0, Z.addr(e) < h.alloc)), patterns=[e]),
-            z3.ForAll([a, k], z3.Implies(z3.And(a >= 0, a < h.alloc, Z.is_ref(d)),
-                                         z3.And(Z.addr(d) >= 0, Z.addr(d) < h.alloc)), patterns=[d])]
+    return [Z.forall([a, j], z3.Implies(z3.And(a >= 0, a < h.alloc, Z.is_ref(e)),
+                                         z3.And(Z.addr(e) >= 0, Z.addr(e) < h.alloc)), patterns=[e], qid='closed_elem'),
+            Z.forall([a, k], z3.Implies(z3.And(a >= 0, a < h.alloc, Z.is_ref(d)),
+                                         z3.And(Z.addr(d) >= 0, Z.addr(d) < h.alloc)), patterns=[d], qid='closed_dv')]
 
 
 def entry_state(ex, con, fs):
@@ -189,12 +189,23 @@ def add_frame_vc(ex, con, entry, s, how):
     if z3.is_true(z3.simplify(same)):
         return
     goal = z3.Implies(z3.And(a >= 0, a < entry.heap.alloc, z3.Not(inmod(a))), same)
-    ex.add_vc('frame', 'modifies (frame: nothing else is written) on %s' % how, s, goal, clause=str(mods or 'nothing'))
+    ex.add_vc('frame', 'modifies (frame: nothing else is written) on %s' % how, s.assume(*inmod.facts), goal, clause=str(mods or 'nothing'))
 
 
 def solve_vc(vc, timeout_ms):
     """returns (status, seconds, backend, model|None).  status: proved | refuted | unknown"""
     t0 = time.time()
+    has_q = any(_has_quant(p) for p in vc.pc) or (vc.goal is not None and _has_quant(vc.goal))
+    if has_q and vc.kind != 'cover':
+        # first pass: E-matching only (fast unsat); second pass below with MBQI for counter-models
+        s = z3.Solver()
+        s.set('timeout', timeout_ms)
+        s.set('smt.mbqi', False)
+        for p in vc.pc:
+            s.add(p)
+        s.add(z3.Not(vc.goal))
+        if s.check() == z3.unsat:
+            return 'proved', time.time() - t0, 'z3', None
     s = z3.Solver()
     s.set('timeout', timeout_ms)
     for p in vc.pc:
@@ -225,6 +236,11 @@ def solve_vc(vc, timeout_ms):
     return 'unknown', time.time() - t0, 'z3', None
 
 
+def _has_quant(e):
+    t = e.sexpr()
+    return '(forall' in t or '(exists' in t or '(lambda' in t
+
+
 KIND_IS_CLAUSE = {'ensures', 'exsures', 'frame', 'callee-pre', 'lemma'}
 
 
@@ -245,9 +261,13 @@ def discharge(ex, res, keep_models, timeout_ms):
                 ob['status'] = 'refuted'
                 ob['note'] = vc.note
                 if keep_models and model is not None:
-                    ob['model_obj'] = model
-                    ob['vc'] = vc
                     ob['model'] = model_summary(model, vc, ex)
+                    try:
+                        from . import replay as RP
+                        ob['counterexample'] = RP.concretise(model, vc, ex, ex.c, ex.f)
+                    except Exception as e:
+                        ob['counterexample'] = None
+                        ob['note'] += ' [concretise failed: %s]' % e
                 break
             if st == 'unknown' and ob['status'] == 'proved':
                 ob['status'] = 'unknown'
